@@ -503,7 +503,7 @@ cond_call = _CondCall()
 @_intrinsic
 def count_bits(inp):
     if not isinstance(inp, type):
-        inp = type(inp)
+        inp = type(TypeQualifierBase.decay(inp))
 
     if subclass_check(inp, Bit):
         return 1
